@@ -65,13 +65,17 @@ def edit_hydrogens_random(recs, rng):
     from .. import pdbio
     out = []
     n = 0
+    foreign = rng.choice((None, None, "BC", "C", "23", "AB"))
     for r in recs:
         out.append(r)
         if r.raw is None and rng.random() < 0.25:
             for k in range(rng.choice((1, 1, 2, 3))):
                 nm = rng.choice((" H  ", " HA ", " HB2", "1HB ", " HG ", "HD11", " HE2", "2HH1", " H1 ", " HZ3", "HH12"))
+                # (some of them under an alternate-location label of their own - a hydroxyl hydrogen refined in two or
+                # three positions: a label that only ignored atoms carry names no conformation)
                 h = pdbio.new_atom(r.tag, "    0", nm, r.resn, r.chain, r.resnum, r.x + rng.randrange(-1100, 1100),
-                                   r.y + rng.randrange(-1100, 1100), r.z + rng.randrange(-1100, 1100), alt=r.alt,
+                                   r.y + rng.randrange(-1100, 1100), r.z + rng.randrange(-1100, 1100),
+                                   alt=(r.alt if foreign is None or rng.random() < 0.8 else rng.choice(foreign)),
                                    icode=r.icode, tail="  1.00  0.00           H")
                 out.append(h)
                 n += 1
